@@ -86,7 +86,8 @@ Theorem C12_refuted_D121 : refuted 121. Proof. exact refuted_D121. Qed.
 Print Assumptions C12_refuted_D121.
 Theorem C12_refuted_D122 : refuted 122. Proof. exact refuted_D122. Qed.
 Print Assumptions C12_refuted_D122.
-Theorem C12_refuted_D123 : exists s tc target nargs nparams kws,
-  NoDup (map kw_key kws) /\ outgoing (only 123) s tc target nargs nparams kws = OTypeError /\ args_misuse s nargs nparams = false.
+Theorem C12_refuted_D123 : exists target data h,
+  (exists x, In (HGiven x) h /\ kw_key x = 4%N) /\
+  ha_call (only 123) target data h = OTypeError /\ ha_call all_off target data h = ODelivered data false.
 Proof. exact refuted_D123. Qed.
 Print Assumptions C12_refuted_D123.
